@@ -5,8 +5,8 @@
 //   view   : a sub-tree view (mpt_config_global(&base)) used together with the process-wide interface
 //   cxx    : a private mpt::config::root
 // Every job owns a small alphabet (path subset x values x {assign, remove[, del]}).  The process-wide tree is a
-// file-static, therefore every BFS node is expanded in a forked "expander" (fresh static state, replays the
-// history once) which forks one grandchild per letter; the grandchild runs the letter, re-queries EVERY path of
+// file-static, therefore every transition of those stores runs in a forked child (fresh static state) which replays
+// the history, runs the letter, re-queries EVERY path of
 // the pool (value + existence), enumerates the whole store through the public collection interface, tears the
 // store down and checks the allocation ledger.  Reference = std::map<vector<string>, string>.
 // Part 2 (jobs "walk:*"): stateless enumeration of all strings up to length 6 over {a, separator, '='} in four
@@ -68,15 +68,36 @@ static std::string key_str(const Key &k)
 static bool is_prefix(const Key &p, const Key &k) { return p.size() <= k.size() && std::equal(p.begin(), p.end(), k.begin()); }
 
 // ================================================================== Part 1: stores
-struct PSpec { std::string label, text; bool null; char sep, assign; Key key; };
+// binary = length-prefixed element format (path flag SepBinary), built element by element with addchar/valid/add
+// huge   = contains an element beyond the 65534-byte identifier limit (assignment must be refused cleanly)
+struct PSpec { std::string label, text; bool null; char sep, assign; Key key; bool binary, huge; };
 static std::vector<PSpec> pool;
 static std::map<std::string, int> pool_idx;
 static int P(const std::string &label) { auto it = pool_idx.find(label); if (it == pool_idx.end()) { fprintf(stderr, "C10: unknown path %s\n", label.c_str()); abort(); } return it->second; }
 static void addp(const std::string &label, const std::string &text, char sep = '.', char assign = 0, bool null = false)
 {
-	PSpec p; p.label = label; p.text = text; p.null = null; p.sep = sep; p.assign = assign;
+	PSpec p; p.label = label; p.text = text; p.null = null; p.sep = sep; p.assign = assign; p.binary = false; p.huge = false;
 	if (!null) p.key = ref_split(text, sep, assign);
+	for (auto &e : p.key) if (e.size() > 65534) p.huge = true;
 	pool_idx[label] = (int) pool.size(); pool.push_back(p);
+}
+static void addb(const std::string &label, const Key &key)
+{
+	PSpec p; p.label = label; p.null = false; p.sep = '.'; p.assign = 0; p.binary = true; p.huge = false; p.key = key;
+	pool_idx[label] = (int) pool.size(); pool.push_back(p);
+}
+// fill a path object for a pool entry (text: mpt_path_set, binary: rebuilt element by element like the parser does)
+static void fill_path(mpt::path &q, const PSpec &p)
+{
+	q.sep = p.sep; q.assign = p.assign;
+	if (p.null) return;
+	if (!p.binary) { mpt::mpt_path_set(&q, p.text.c_str(), -1); return; }
+	q.flags = mpt::path::SepBinary;
+	for (auto &e : p.key) {
+		int valid = 0;
+		for (char ch : e) { mpt::mpt_path_addchar(&q, (unsigned char) ch); valid = mpt::mpt_path_valid(&q); }
+		mpt::mpt_path_add(&q, valid);
+	}
 }
 static std::string KN(size_t n) { return std::string(n, 'k'); }
 static void build_pool()
@@ -91,6 +112,11 @@ static void build_pool()
 	// element lengths around the inline identifier sizes (C++ item: 11/12, node: 19/20 and 211/212) and the 8-bit first-length field
 	for (size_t n : {11, 12, 19, 20, 211, 212, 254, 255, 256, 300}) addp(fmt("k%zu", n), KN(n));
 	for (size_t n : {255, 256}) { addp(fmt("a.k%zu", n), "a." + KN(n)); addp(fmt("k%zu.a", n), KN(n) + ".a"); }
+	// length-prefixed spellings (same keys as text spellings above; k200: a length byte >= 128)
+	addb("bin:a", { "a" }); addb("bin:a/b", { "a", "b" }); addb("bin:a/c", { "a", "c" }); addb("bin:a/b/c", { "a", "b", "c" });
+	addb("bin:b", { "b" }); addb("bin:b/c", { "b", "c" }); addb("bin:a/k200", { "a", std::string(200, 'k') });
+	// an element beyond the identifier limit: the assignment is refused, the store must stay sound
+	addp("x", "x"); addp("a.x", "a.x"); addp("x.Y70000", "x." + std::string(70000, 'Y')); addp("a.x.Y70000", "a.x." + std::string(70000, 'Y'));
 }
 // value lengths: short, empty, last length of the compact text metatype (249), first lengths that need another representation (250, 255), long
 static std::vector<std::string> values() { return { "x", "yy", "", std::string(249, 'z'), std::string(250, 'z'), std::string(255, 'z'), std::string(300, 'z'), std::string(256, 'y') }; }
@@ -107,10 +133,13 @@ struct Job {
 	std::string base;                 // label of the view's base path (VIEW only)
 	std::vector<OpSpec> ops;
 	std::vector<int> viewq;           // paths queried through the view (relative)
+	bool huge;                        // alphabet contains an over-long element: those pool entries are queried as well
+	Job() : kind(0), depth(0), huge(false) {}
 };
 static void add_ops(Job &j, int target, const std::vector<std::string> &paths, const std::vector<int> &vals, bool withdel = false, bool pairs = false)
 {
 	for (auto &p : paths) {
+		if (pool[P(p)].huge) j.huge = true;
 		for (int v : vals) j.ops.push_back(OpSpec{target, ASSIGN, P(p), v});
 		// touch (copy P <- P) in every alphabet, copy from every other path in the alias alphabets
 		for (auto &q : paths) if (pairs || q == p) j.ops.push_back(OpSpec{target, COPY, P(p), P(q)});
@@ -139,6 +168,8 @@ static std::vector<Job> make_jobs(Tier t)
 		{ "len-l",    { "k211", "k212", "k255", "k256", "k300" }, { V_X }, 3, false },
 		{ "len-n",    { "a", "a.k255", "a.k256", "k255.a", "k256.a" }, { V_X },    3, false },
 		{ "values",   { "a", "a.b" },                               { V_X, V_EMPTY, V_249, V_250, V_255, V_300 }, 3, false },
+		{ "binary",   { "a.b", "bin:a", "bin:a/b", "bin:a/c", "bin:a/b/c", "bin:a/k200" }, { V_X }, 3, false },
+		{ "toolong",  { "a", "a.x", "a.x.Y70000" },                 { V_X },       4, false },
 		{ "alias-s",  { "a", "a.b", "b" },                          { V_X, V_YY }, 3, true },
 		{ "alias-l",  { "a", "b" },                                 { V_X, V_249, V_250, V_255, V_256, V_300 }, 3, true },
 	};
@@ -154,6 +185,8 @@ static std::vector<Job> make_jobs(Tier t)
 		{ "nested", "a.b", { "<root>", "c", "c.d" },   { "a", "a.b", "a.b.c" }, { V_X },       4, false },
 		{ "fresh",  "v.w", { "k", "<root>" },          { "v", "v.k", "b" },     { V_X, V_YY }, 4, false },
 		{ "values", "a",   { "b", "<root>" },          { "a" },                 { V_X, V_EMPTY, V_250, V_300 }, 3, false },
+		{ "binary", "a",   { "bin:b", "bin:b/c", "b" }, { "bin:a/b", "a" },     { V_X },       3, false },
+		{ "toolong","a",   { "x", "x.Y70000" },        { "a", "a.x" },          { V_X },       4, false },
 		{ "alias",  "a",   { "<root>", "b" },          { "a", "a.b" },          { V_X, V_250, V_256 }, 3, true },
 	};
 	for (auto &a : valphas) {
@@ -170,7 +203,7 @@ struct Out {
 	std::vector<std::pair<std::string, std::string> > viols;
 	std::map<std::string, uint64_t> cnt;
 	std::vector<std::string> notes;
-	std::string canon;
+	std::string canon, pre;      // pre = canonical state before the last step (replay check)
 	void violation(const std::string &sig, const std::string &detail) { viols.push_back(std::make_pair(sig, detail)); }
 	void count(const std::string &k, uint64_t n = 1) { cnt[k] += n; }
 };
@@ -182,6 +215,7 @@ static std::string ser(const Out &o)
 	for (auto &c : o.cnt) s += "C\t" + clean(c.first) + "\t" + std::to_string(c.second) + "\n";
 	for (auto &n : o.notes) s += "N\t" + clean(n) + "\n";
 	s += "K\t" + clean(o.canon) + "\n";
+	s += "P\t" + clean(o.pre) + "\n";
 	return s;
 }
 static Out parse(const std::string &s)
@@ -196,6 +230,7 @@ static Out parse(const std::string &s)
 		else if (l[0] == 'C') { size_t t = rest.find('\t'); if (t != std::string::npos) o.cnt[rest.substr(0, t)] += strtoull(rest.c_str() + t + 1, 0, 10); }
 		else if (l[0] == 'N') o.notes.push_back(rest);
 		else if (l[0] == 'K') o.canon = rest;
+		else if (l[0] == 'P') o.pre = rest;
 	}
 	return o;
 }
@@ -302,11 +337,13 @@ struct Sys {
 	std::set<Key> may;                // structural entries whose existence is not specified (prefixes of assigned paths)
 	std::vector<std::string> vals;
 	bool bad;
+	mpt::config *gcfg;           // interface of the process-wide store (used for direct assign/remove calls with binary paths)
 
-	Sys(const Job &j, Out &o) : job(j), out(o), root(0), vmt(0), view(0), bad(false)
+	Sys(const Job &j, Out &o) : job(j), out(o), root(0), vmt(0), view(0), bad(false), gcfg(0)
 	{
 		vals = values();
 		if (job.kind == CXX) root = LIB(new mpt::config::root);
+		else { mpt::metatype *g = mpt::mpt_config_global(0); if (g) g->convert(mpt::TypeConfigPtr, &gcfg); }
 		if (job.kind == VIEW) {
 			const PSpec &b = pool[P(job.base)];
 			base = b.key;
@@ -327,6 +364,7 @@ struct Sys {
 		for (auto &e : p.key) { if (e.empty()) empty = true; if (e.size() > 200) lng = true; }
 		if (empty) s += ",empty-elem";
 		if (lng) s += ",long-elem";
+		if (p.binary) s += ",binary-sep";
 		if (p.sep != '.') s += ",other-sep";
 		if (p.assign) s += ",assign-char";
 		return s;
@@ -339,7 +377,7 @@ struct Sys {
 		size_t f = s.rfind('|');
 		std::string kind = s.substr(f + 1);
 		bool own = kind.compare(0, 7, "refused") == 0 || kind.find("same-path") != std::string::npos;
-		if (!own) { size_t a = s.rfind('|', f - 1); size_t c = s.find(',', a); if (c != std::string::npos && c < f) s.erase(c, f - c); }
+		if (!own) { size_t a = s.rfind('|', f - 1); size_t c = s.find(',', a); if (c != std::string::npos && c < f) { bool bin = s.substr(c, f - c).find("binary-sep") != std::string::npos; s.replace(c, f - c, bin ? ",binary-sep" : ""); } }
 		out.violation(s, detail); bad = true;
 	}
 
@@ -347,18 +385,18 @@ struct Sys {
 	int get_value(mpt::config *c, const PSpec &p, std::string &v)
 	{
 		const char *s = 0; int r;
-		if (!p.null && p.sep == '.' && !p.assign) {
+		if (!p.null && !p.binary && p.sep == '.' && !p.assign) {
 			if (job.kind == CXX && c == root) { bool ok = root->get(p.text.c_str(), s); r = ok ? 's' : -1; }
 			else r = mpt::mpt_config_get(c, p.text.c_str(), 's', &s);
 		} else {
-			mpt::path q(p.null ? 0 : p.text.c_str(), p.sep, p.assign);
+			mpt::path q; fill_path(q, p);
 			r = mpt::mpt_config_getp(c, &q, 's', &s);
 		}
 		if (r >= 0) { v = s ? s : ""; return r; }
 		if (r == mpt::BadType) {
 			// long values live in a buffer-backed metatype whose C implementation offers its text as character vector only
 			struct iovec vec = { 0, 0 };
-			mpt::path q(p.null ? 0 : p.text.c_str(), p.sep, p.assign);
+			mpt::path q; fill_path(q, p);
 			int r2 = mpt::mpt_config_getp(c, &q, MPT_type_toVector('c'), &vec);
 			if (r2 >= 0) {
 				const char *b = (const char *) vec.iov_base; size_t n = vec.iov_len;
@@ -372,7 +410,7 @@ struct Sys {
 	}
 	int get_exists(mpt::config *c, const PSpec &p)
 	{
-		mpt::path q(p.null ? 0 : p.text.c_str(), p.sep, p.assign);
+		mpt::path q; fill_path(q, p);
 		return mpt::mpt_config_getp(c, &q, 0, 0);
 	}
 	void poison(bool on)
@@ -398,6 +436,7 @@ struct Sys {
 			for (size_t i = 0; i < pool.size() && !bad; ++i) {
 				const PSpec &p = pool[i];
 				if (target && std::find(job.viewq.begin(), job.viewq.end(), (int) i) == job.viewq.end()) continue;
+				if (p.huge && !job.huge) continue;
 				Key Q = full(target, p);
 				std::string got; int r = LIB(get_value(c, p, got));
 				int ex = LIB(get_exists(c, p));
@@ -464,7 +503,7 @@ struct Sys {
 		if (o.kind == COPY) {
 			const PSpec &q = pool[o.value];
 			Key QK = full(o.target, q);
-			mpt::path qq(q.null ? 0 : q.text.c_str(), q.sep, q.assign);
+			mpt::path qq; LIB((fill_path(qq, q), 0));
 			int r = LIB(mpt::mpt_config_getp(c, &qq, 's', &vptr));
 			if (r == mpt::BadType) {
 				struct iovec vec = { 0, 0 };
@@ -501,7 +540,12 @@ struct Sys {
 		asan_error();
 		phase(opn);
 		int ret;
-		if (isassign) {
+		if (p.binary) {
+			// length-prefixed path: call the configuration interface with the rebuilt path object
+			mpt::config *ci = c ? c : gcfg;
+			const char *arg = o.kind == COPY ? vptr : v.c_str();
+			ret = LIB(([&]() { mpt::path q; fill_path(q, p); if (!isassign) return ci->remove(&q); mpt::value tmp; tmp = arg; return ci->assign(&q, &tmp); })());
+		} else if (isassign) {
 			const char *arg = o.kind == COPY ? vptr : v.c_str();
 			if (job.kind == CXX && !p.assign && !p.null) { bool ok = LIB(root->set(p.text.c_str(), arg, p.sep)); ret = ok ? 0 : -1; }
 			else ret = LIB(mpt::mpt_config_set(c, p.null ? 0 : p.text.c_str(), arg, p.sep, p.assign));
@@ -524,6 +568,7 @@ struct Sys {
 				out.count("assign:refused");
 				may.insert(K);
 				if (K.empty()) out.count("assign:refused(root, not flagged)");
+				else if (p.huge) out.count("assign:refused(element > 65534 bytes, not flagged)");
 				else fail(opsig + (v.size() >= 250 ? ",long-value" : "") + "|refused", desc + fmt(": a legal assignment is refused (%d)", ret));
 			}
 		} else {
@@ -599,7 +644,7 @@ static std::string fault_record(const Job &job, int op, const std::string &child
 	Out out;
 	std::string store = job.kind == VIEW ? (o.target ? "view" : "view,via-global") : kindname[job.kind];
 	std::string ph = g_phase ? g_phase : "?";
-	out.violation(std::string(opword(o.kind)) + "|" + store + "|" + Sys::pclass(p).substr(0, Sys::pclass(p).find(',')) + "|" + why + (ph == "assign" || ph == "remove" || ph == "del" || ph == "copy" ? "" : ",in-" + ph),
+	out.violation(std::string(opword(o.kind)) + "|" + store + "|" + Sys::pclass(p).substr(0, Sys::pclass(p).find(',')) + (p.binary ? ",binary-sep" : "") + "|" + why + (ph == "assign" || ph == "remove" || ph == "del" || ph == "copy" ? "" : ",in-" + ph),
 	              opname(job, op) + ": the process running this history ended with " + why + " during phase '" + ph + "'");
 	return ser(out);
 }
@@ -619,31 +664,6 @@ static std::string run_history(const Job &job, const Vec &hist, bool all)
 	}
 	return ser(out);
 }
-// expander: replays the prefix once, then forks one grandchild per letter
-static std::string expander(const Job &job, const Vec &hist)
-{
-	Out out;
-	warm_up(job);
-	Sys *s = new Sys(job, out);
-	bool ok = true;
-	for (size_t i = 1; i < hist.size() && ok; ++i) ok = s->apply(job.ops[hist[i]], i + 1 == hist.size());
-	if (hist.size() <= 1) s->sweep("init|" + std::string(kindname[job.kind]) + "|-", Key(), REMOVE, "initial state");
-	std::string res = ser(out);
-	if (!ok) return res;
-	for (size_t op = 0; op < job.ops.size(); ++op) {
-		res += "\x1e";
-		std::string r = in_child([&]() {
-			out = Out();
-			bool good = s->apply(job.ops[op], true);
-			if (good) s->teardown(std::string(opword(job.ops[op].kind)) + "|" + s->store(job.ops[op].target) + "|" + Sys::pclass(pool[job.ops[op].path]), "history ending with " + opname(job, (int) op));
-			return ser(out);
-		}, 30);
-		if (!r.empty() && r[0] == '\x01') r = fault_record(job, (int) op, r);
-		res += r;
-	}
-	return res;
-}
-
 static std::string hist_str(const Job &job, const Vec &h)
 {
 	std::string s;
@@ -670,7 +690,25 @@ static Out step_inproc(Run &r, const Job &job, const Vec &v, std::string &precan
 		const OpSpec &o = job.ops[v.back()];
 		s.teardown(std::string(opword(o.kind)) + "|" + s.store(o.target) + "|" + Sys::pclass(pool[o.path]), "history ending with " + opname(job, (int) v.back()));
 	}
+	out.pre = precanon;
 	return out;
+}
+// process-wide store and views: the step (prefix replay + last operation + oracles + teardown) runs in a forked child, so every
+// history starts from pristine static state and a fault or runaway loop costs one child; private C++ root: inside the worker
+static Out run_step(Run &r, const Job &job, const Vec &v, std::string &precanon)
+{
+	if (job.kind == CXX) return step_inproc(r, job, v, precanon);
+	phase("replay-prefix");
+	std::string res = in_child([&]() { std::string pc; return ser(step_inproc(r, job, v, pc)); }, 4);
+	if (!res.empty() && res[0] == '\x01') {
+		Out o = v.size() > 1 ? parse(fault_record(job, (int) v.back(), res)) : Out();
+		if (v.size() <= 1) o.violation("init|" + std::string(kindname[job.kind]) + "|-|fault", "the empty history faults: " + res.substr(1));
+		precanon = "\x01";
+		return o;
+	}
+	Out o = parse(res);
+	precanon = o.pre;
+	return o;
 }
 static void explore_inproc(Run &r, const Job &job)
 {
@@ -681,7 +719,7 @@ static void explore_inproc(Run &r, const Job &job)
 	{
 		Vec h0(1, 0); std::string pc;
 		if (!r.enter(h0, "init")) return;
-		Out o = step_inproc(r, job, h0, pc);
+		Out o = run_step(r, job, h0, pc);
 		for (auto &x : o.viols) r.violation_at(x.first, h0, x.second);
 		if (!o.viols.empty()) return;
 		seen.insert(hash128(o.canon)); ++r.states;
@@ -695,9 +733,9 @@ static void explore_inproc(Run &r, const Job &job)
 			Vec v = n.h; v.push_back(op);
 			if (!r.enter(v, "")) continue;
 			std::string pc;
-			Out o = step_inproc(r, job, v, pc);
+			Out o = run_step(r, job, v, pc);
 			++r.transitions; ++r.executions;
-			if (!(hash128(pc) == n.canon)) { r.violation_at("ENGINE|nondeterministic-replay", v, "history prefix did not reproduce its canonical state: " + hist_str(job, n.h)); r.incomplete("nondeterministic replay"); return; }
+			if (pc != "\x01" && !(hash128(pc) == n.canon)) { r.violation_at("ENGINE|nondeterministic-replay", v, "history prefix did not reproduce its canonical state: " + hist_str(job, n.h)); r.incomplete("nondeterministic replay"); return; }
 			for (auto &c : o.cnt) r.count(c.first, c.second);
 			if (!o.viols.empty()) { for (auto &x : o.viols) r.violation_at(x.first, v, hist_str(job, v) + " :: " + x.second); continue; }
 			Hash128 h = hash128(o.canon);
@@ -719,48 +757,8 @@ static void explore_store(Run &r, const Job &job)
 	r.require("assign:beneath-a-valued-path"); r.require("assign:above-valued-paths"); r.require("assign:value>=250 bytes");
 	r.require("copy:onto-itself"); r.require("copy:from-other-path");
 	r.require("remove:inner-with-keys-beneath"); r.require("remove:leaf"); r.require("remove:absent"); r.require("remove:everything");
-	if (job.kind == CXX) { explore_inproc(r, job); return; }
 	g_phase = (char *) mmap(0, 4096, PROT_READ | PROT_WRITE, MAP_SHARED | MAP_ANONYMOUS, -1, 0);
-	std::unordered_set<Hash128, Hash128H> seen;
-	std::deque<Vec> frontier;
-	frontier.push_back(Vec(1, 0));
-	bool first = true; uint64_t capped = 0; size_t maxdepth = 0;
-	while (!frontier.empty()) {
-		Vec h = frontier.front(); frontier.pop_front();
-		if ((int) h.size() - 1 >= job.depth) { ++capped; continue; }
-		if (r.expired()) return;
-		r.enter(h, "expand");
-		phase("replay-prefix");
-		std::string res = in_child([&]() { return expander(job, h); }, 300);
-		if (!res.empty() && res[0] == '\x01') { r.violation_at("ENGINE|expander-died", h, "expander of " + hist_str(job, h) + " ended with " + res.substr(1)); r.incomplete("expander"); return; }
-		std::vector<std::string> recs; { size_t i = 0; for (;;) { size_t e = res.find('\x1e', i); recs.push_back(res.substr(i, e == std::string::npos ? e : e - i)); if (e == std::string::npos) break; i = e + 1; } }
-		Out pre = parse(recs[0]);
-		if (first) {
-			first = false;
-			for (auto &x : pre.viols) r.violation_at(x.first, h, x.second);
-			if (!pre.viols.empty()) return;
-			seen.insert(hash128(pre.canon)); ++r.states;
-		} else if (!pre.viols.empty() || !seen.count(hash128(pre.canon))) {
-			r.violation_at("ENGINE|nondeterministic-replay", h, "history prefix did not reproduce its canonical state: " + hist_str(job, h)); r.incomplete("nondeterministic replay"); return;
-		}
-		if (recs.size() != job.ops.size() + 1) { r.violation_at("ENGINE|child-output", h, "expander returned an incomplete result set"); r.incomplete("child output"); return; }
-		for (size_t op = 0; op < job.ops.size(); ++op) {
-			Vec v = h; v.push_back(op);
-			Out o = parse(recs[op + 1]);
-			++r.transitions; ++r.executions;
-			for (auto &c : o.cnt) r.count(c.first, c.second);
-			if (!o.viols.empty()) { for (auto &x : o.viols) r.violation_at(x.first, v, hist_str(job, v) + " :: " + x.second); continue; }
-			if (o.canon.empty()) { r.violation_at("ENGINE|child-output", v, "no canonical state returned"); r.incomplete("child output"); return; }
-			if (seen.insert(hash128(o.canon)).second) {
-				frontier.push_back(v); ++r.states;
-				if (v.size() - 1 > maxdepth) maxdepth = v.size() - 1;
-				if (v.size() == 4) r.sample(job.name + ": " + hist_str(job, v));
-			}
-		}
-	}
-	r.count("states-left-unexpanded-at-depth-bound", capped);
-	r.count(capped ? "jobs-bounded-by-depth" : "jobs-explored-to-closure");
-	r.count(fmt("max-history-length(%s)", job.name.c_str()), maxdepth);
+	explore_inproc(r, job);
 }
 static void replay_store(Run &r, const Job &job, const Vec &v)
 {
@@ -777,13 +775,16 @@ static void replay_store(Run &r, const Job &job, const Vec &v)
 }
 
 // ================================================================== Part 2: path walking
-struct WMode { char sep, assign; const char *name; };
-static const WMode wmodes[] = { { '.', 0, "sep=.,end=NUL" }, { '.', '=', "sep=.,end==" }, { '/', 0, "sep=/,end=NUL" }, { '/', '=', "sep=/,end==" } };
+struct WMode { char sep, assign; const char *name; bool binary; };
+// the fifth mode is the length-prefixed element format (flag SepBinary): no separator character, paths exist only rebuilt
+static const WMode wmodes[] = { { '.', 0, "sep=.,end=NUL", false }, { '.', '=', "sep=.,end==", false }, { '/', 0, "sep=/,end=NUL", false }, { '/', '=', "sep=/,end==", false },
+                                { '.', 0, "length-prefixed", true } };
+static const int NWMODES = 5;
 
 struct PathBox {      // a path struct without constructor / destructor side effects
 	alignas(mpt::path) char raw[sizeof(mpt::path)];
 	mpt::path *p() { return (mpt::path *) raw; }
-	PathBox(char sep, char assign) { memset(raw, 0, sizeof raw); p()->sep = sep; p()->assign = assign; }
+	PathBox(char sep, char assign, bool binary = false) { memset(raw, 0, sizeof raw); p()->sep = sep; p()->assign = assign; if (binary) p()->flags = mpt::path::SepBinary; }
 	PathBox(const mpt::path &o) { memcpy(raw, &o, sizeof raw); }
 };
 // walk a copy of the path with mpt_path_next; returns the visited components, "\x01..." on protocol errors
@@ -815,55 +816,93 @@ static const char *wclass(const Key &comps, const std::string &s, char assign)
 
 struct WCount { uint64_t nontrivial, strings; };
 // rebuild `comps` with addchar/valid/add on a fresh path; check after every add; then delete again.  Returns false after a violation.
-static bool rebuild(Run &r, const WMode &m, const Key &comps, const std::string &sigcls, const std::string &what)
+// cxxapi: use the C++ wrappers path::add / path::del instead of the C functions.
+// tail > 0: after the build consume `tail` elements with mpt_path_next, delete the last element and add a new one (walk, then rebuild the tail)
+static bool rebuild(Run &r, const WMode &m, const Key &comps, const std::string &sigcls, const std::string &what0, bool cxxapi = false, size_t tail = 0)
 {
-	PathBox b(m.sep, m.assign); mpt::path *p = b.p();
+	PathBox b(m.sep, m.assign, m.binary); mpt::path *p = b.p();
 	bool ok = true; std::string err; Key got;
+	const char *ADD = cxxapi ? "path::add" : "mpt_path_add", *DEL = cxxapi ? "path::del" : "mpt_path_del";
+	std::string what = what0 + (cxxapi ? " [C++ wrappers]" : "");
 	auto fail = [&](const char *op, const char *kind, const std::string &d) { r.violation(std::string(op) + "|" + sigcls + "|" + kind, what + ": " + d); ok = false; };
+	auto do_del = [&]() { return cxxapi ? LIB(p->del()) : LIB(mpt::mpt_path_del(p)); };
 	auto add_elem = [&](const std::string &c, const Key &expect) {
-		r.hint("mpt_path_add");
+		r.hint(ADD);
 		// protocol of the parser: every character that is to be kept is confirmed with mpt_path_valid (sets KeepPost)
 		int valid = 0;
-		for (char ch : c) { if (LIB(mpt::mpt_path_addchar(p, (unsigned char) ch)) < 0) { fail("mpt_path_add", "refused", "mpt_path_addchar refused"); return; } valid = LIB(mpt::mpt_path_valid(p)); ++r.transitions; }
+		for (char ch : c) { if (LIB(mpt::mpt_path_addchar(p, (unsigned char) ch)) < 0) { fail(ADD, "refused", "mpt_path_addchar refused"); return; } valid = LIB(mpt::mpt_path_valid(p)); ++r.transitions; }
 		if (c.empty()) valid = LIB(mpt::mpt_path_valid(p));
-		if (valid != (int) c.size()) { fail("mpt_path_add", "wrong-components", fmt("mpt_path_valid reports %d pending bytes after adding %zu characters", valid, c.size())); return; }
-		int ret = LIB(mpt::mpt_path_add(p, valid)); ++r.transitions;
-		if (ret < 0) { fail("mpt_path_add", "refused", fmt("adding element '%s' refused (%d)", abbrev(c).c_str(), ret)); return; }
-		if (!walk(*p, got, err)) fail("mpt_path_add", "wrong-components", "walking the rebuilt path: " + err);
-		else if (got != expect) fail("mpt_path_add", "wrong-components", "after adding '" + abbrev(c) + "' the path walks as " + comps_str(got) + ", expected " + comps_str(expect));
+		if (valid != (int) c.size()) { fail(ADD, "wrong-components", fmt("mpt_path_valid reports %d pending bytes after adding %zu characters", valid, c.size())); return; }
+		int ret = cxxapi ? LIB(p->add(valid)) : LIB(mpt::mpt_path_add(p, valid)); ++r.transitions;
+		if (ret < 0) { fail(ADD, "refused", fmt("adding element '%s' (%d pending bytes) refused (%d)", abbrev(c).c_str(), valid, ret)); return; }
+		if (!walk(*p, got, err)) fail(ADD, "wrong-components", "walking the rebuilt path: " + err);
+		else if (got != expect) fail(ADD, "wrong-components", "after adding '" + abbrev(c) + "' the path walks as " + comps_str(got) + ", expected " + comps_str(expect));
 	};
 	Key sofar;
 	for (size_t i = 0; i < comps.size() && ok; ++i) { sofar.push_back(comps[i]); add_elem(comps[i], sofar); }
+	if (ok && tail) {
+		// walk `tail` elements, then rebuild the end of the remaining path: delete its last element and add another one
+		for (size_t i = 0; i < tail; ++i) LIB(mpt::mpt_path_next(p));
+		r.hint(DEL);
+		int n = do_del(); ++r.transitions;
+		Key expect(comps.begin() + tail, comps.end() - 1);
+		std::string dop = std::string(DEL) + ",after-next";
+		if (n != (int) comps.back().size()) fail(dop.c_str(), "wrong-components", fmt("after %zu x next: del returns %d, last element has %zu bytes", tail, n, comps.back().size()));
+		else if (!walk(*p, got, err) || got != expect) fail(dop.c_str(), "wrong-components", fmt("after %zu x next and del the path walks as %s, expected %s", tail, comps_str(got).c_str(), comps_str(expect).c_str()));
+		else if (LIB(mpt::mpt_path_valid(p)) < 0) fail(dop.c_str(), "wrong-components", fmt("after %zu x next and del the path no longer lies inside its buffer (mpt_path_valid fails)", tail));
+		else {
+			expect.push_back("dd");
+			std::string w0 = what; what += fmt(" after %zu x next + del", tail);
+			std::string a = std::string(ADD) + ",after-next"; const char *keep = ADD; ADD = a.c_str();
+			add_elem("dd", expect);
+			ADD = keep; what = w0;
+		}
+		if (ok && asan_error()) fail(dop.c_str(), "asan", "memory error");
+		LIB((mpt::mpt_path_fini(p), 0));
+		return ok;
+	}
+	// last element of the rebuilt (buffer backed) path, also after consuming k elements (a failure here does not stop the del checks)
+	bool lastok = true;
+	for (size_t k = 0; k < comps.size() && ok && lastok; ++k) {
+		PathBox c(*p); mpt::path *q = c.p();
+		for (size_t i = 0; i < k; ++i) LIB(mpt::mpt_path_next(q));
+		r.hint("mpt_path_last");
+		int l = LIB(mpt::mpt_path_last(q)); ++r.transitions;
+		const char *lop = k ? "mpt_path_last,after-next" : "mpt_path_last";
+		if (l != (int) comps.back().size()) fail(lop, "wrong-components", fmt("rebuilt path, after %zu x next: returns %d, last element %s", k, l, comps_str(Key(1, comps.back())).c_str()));
+		else if (!walk(*q, got, err) || got != Key(1, comps.back())) fail(lop, "wrong-components", fmt("rebuilt path, after %zu x next: reduced path walks as %s (%s), last element is '%s'", k, comps_str(got).c_str(), err.c_str(), abbrev(comps.back()).c_str()));
+		if (!ok) { lastok = false; ok = true; asan_error(); }
+	}
 	// add o del = id on the complete path
 	if (ok) {
-		r.hint("mpt_path_del");
-		int n = LIB(mpt::mpt_path_del(p)); ++r.transitions;
-		if (n != (int) comps.back().size()) fail("mpt_path_del", "wrong-components", fmt("rebuilt path: del returns %d, last element has %zu bytes", n, comps.back().size()));
+		r.hint(DEL);
+		int n = do_del(); ++r.transitions;
+		if (n != (int) comps.back().size()) fail(DEL, "wrong-components", fmt("rebuilt path: del returns %d, last element has %zu bytes", n, comps.back().size()));
 		else {
 			Key expect(comps.begin(), comps.end() - 1);
-			if (!walk(*p, got, err)) fail("mpt_path_del", "wrong-components", "walking after del: " + err);
-			else if (got != expect) fail("mpt_path_del", "wrong-components", "rebuilt path after del walks as " + comps_str(got) + ", expected " + comps_str(expect));
+			if (!walk(*p, got, err)) fail(DEL, "wrong-components", "walking after del: " + err);
+			else if (got != expect) fail(DEL, "wrong-components", "rebuilt path after del walks as " + comps_str(got) + ", expected " + comps_str(expect));
 			else { sofar = expect; sofar.push_back(comps.back()); add_elem(comps.back(), sofar); }
 		}
 	}
 	// delete everything again
 	for (size_t i = comps.size(); i-- > 0 && ok;) {
-		r.hint("mpt_path_del");
-		int n = LIB(mpt::mpt_path_del(p)); ++r.transitions;
+		r.hint(DEL);
+		int n = do_del(); ++r.transitions;
 		Key expect(comps.begin(), comps.begin() + i);
-		if (n != (int) comps[i].size()) fail("mpt_path_del", "wrong-components", fmt("del returns %d, removed element has %zu bytes", n, comps[i].size()));
-		else if (!walk(*p, got, err)) fail("mpt_path_del", "wrong-components", "walking after del: " + err);
-		else if (got != expect) fail("mpt_path_del", "wrong-components", "after del the path walks as " + comps_str(got) + ", expected " + comps_str(expect));
+		if (n != (int) comps[i].size()) fail(DEL, "wrong-components", fmt("del returns %d, removed element has %zu bytes", n, comps[i].size()));
+		else if (!walk(*p, got, err)) fail(DEL, "wrong-components", "walking after del: " + err);
+		else if (got != expect) fail(DEL, "wrong-components", "after del the path walks as " + comps_str(got) + ", expected " + comps_str(expect));
 	}
-	if (ok && asan_error()) fail("mpt_path_add", "asan", "memory error while rebuilding");
+	if (ok && asan_error()) fail(ADD, "asan", "memory error while rebuilding");
 	LIB((mpt::mpt_path_fini(p), 0));
-	if (ok && ledger_live()) fail("mpt_path_add", "leak", fmt("%zu block(s) still allocated after mpt_path_fini", ledger_live()));
-	return ok;
+	if (ok && ledger_live()) fail(ADD, "leak", fmt("%zu block(s) still allocated after mpt_path_fini", ledger_live()));
+	return ok && lastok;
 }
 static void walk_case(Run &r, WCount &wc, const WMode &m, const std::string &s)
 {
 	Key comps = ref_split(s, m.sep, m.assign);
-	std::string cls = wclass(comps, s, m.assign);
+	std::string cls = (m.binary ? "length-prefixed," : "") + std::string(wclass(comps, s, m.assign));
 	std::string what = fmt("string \"%s\" (%s)", abbrev(s).c_str(), m.name);
 	std::string err; Key got;
 	++wc.strings; ++r.states;
@@ -875,8 +914,8 @@ static void walk_case(Run &r, WCount &wc, const WMode &m, const std::string &s)
 	ledger_reset(); asan_error();
 	// exactly sized NUL-terminated copy
 	char *z = (char *) malloc(s.size() + 1); memcpy(z, s.c_str(), s.size() + 1);
-	// --- set + next*
-	{
+	// --- set + next* (text formats only: a length-prefixed path has no string form)
+	if (!m.binary) {
 		PathBox b(m.sep, m.assign); mpt::path *p = b.p();
 		r.hint("mpt_path_set");
 		int n = LIB(mpt::mpt_path_set(p, z, -1)); ++r.transitions;
@@ -914,7 +953,7 @@ static void walk_case(Run &r, WCount &wc, const WMode &m, const std::string &s)
 		}
 	}
 	// --- explicit length on an exactly sized buffer without terminator
-	{
+	if (!m.binary) {
 		char *e = (char *) malloc(s.size() ? s.size() : 1); memcpy(e, s.data(), s.size());
 		PathBox b(m.sep, m.assign); mpt::path *p = b.p();
 		r.hint("mpt_path_set");
@@ -929,18 +968,32 @@ static void walk_case(Run &r, WCount &wc, const WMode &m, const std::string &s)
 		if (got != want) { fail("mpt_path_next", "wrong-components", "explicit length: walks as " + comps_str(got) + ", expected " + comps_str(want)); goto out; }
 	}
 	// --- rebuild (an empty first element has no pending characters, hence no buffer to turn into an element)
-	if (comps[0].empty()) r.count("rebuild:skipped(empty first element)");
-	else if (!rebuild(r, m, comps, cls, what)) goto out;
+	{
+		bool toolong = false; for (auto &c : comps) if (c.size() > 255) toolong = true;
+		if (comps[0].empty()) r.count("rebuild:skipped(empty first element)");
+		else if (m.binary && toolong) r.count("rebuild:skipped(length-prefixed element > 255 bytes)");
+		else {
+			// the three variants are independent: a finding in one does not hide the others
+			rebuild(r, m, comps, cls, what);
+			ledger_reset(); asan_error();
+			rebuild(r, m, comps, cls, what, true);
+			// walk k elements, then rebuild the tail (at least one element stays in front of the deleted one)
+			for (size_t k = 1; k + 2 <= comps.size(); ++k) { ledger_reset(); asan_error(); rebuild(r, m, comps, cls, what, false, k); r.count("rebuild:tail-after-next"); }
+			r.count(m.binary ? "rebuild:length-prefixed" : "rebuild:text");
+		}
+	}
 out:
 	free(z);
 }
 static const size_t long_lens[] = { 253, 254, 255, 256, 257, 258, 300, 511, 512, 513 };
 static void walk_body(Run &r, WCount &wc, const std::string &job, Ctx &x, size_t maxlen)
 {
-	const WMode &m = wmodes[x.choose(4)];
+	const WMode &m = wmodes[x.choose(NWMODES)];
 	if (job == "walk:long") {
-		// one long element in first / middle / last position
-		size_t n = long_lens[x.choose(sizeof long_lens / sizeof *long_lens)];
+		// one long element in first / middle / last position (length-prefixed: around the sign bit and the 8-bit limit)
+		static const size_t bin_lens[] = { 126, 127, 128, 129, 200, 253, 254, 255, 256, 300 };
+		size_t li = x.choose(sizeof long_lens / sizeof *long_lens);
+		size_t n = m.binary ? bin_lens[li] : long_lens[li];
 		int pos = (int) x.choose(4);
 		std::string L(n, 'a'), sp(1, m.sep);
 		std::string s = pos == 0 ? L : (pos == 1 ? L + sp + "a" : (pos == 2 ? "a" + sp + L : "a" + sp + L + sp + "a"));
@@ -972,6 +1025,7 @@ void mc_explore(Run &r, const std::string &job)
 	if (job.compare(0, 5, "walk:") == 0) {
 		WCount wc = { 0, 0 };
 		r.require("nontrivial"); r.require("walk:multi,empty-elem"); r.require("walk:end-char-missing");
+		r.require("rebuild:text"); r.require("rebuild:length-prefixed"); r.require("rebuild:tail-after-next"); r.require("walk:length-prefixed,multi");
 		dfs(r, [&](Ctx &x) { walk_body(r, wc, job, x, 6); });
 		r.count("nontrivial", wc.nontrivial); r.count("walk:strings", wc.strings);
 		return;
